@@ -206,6 +206,9 @@ with decode_jsonb (fuel : nat) (bs : list N) : res (value * list N) :=
         | Some (w, rest') => decode_scalar fuel' w rest'
         end
       else if ty =? ARRAY_CONTAINER_TAG then
+        (* decode_jentries reads the entry words one by one and fails at the end of the input: a count
+           that does not fit the remaining bytes is rejected before anything else happens *)
+        if lenN rest <? 4 * hdr_len hdr then Err EOther else
         let n := N.to_nat (hdr_len hdr) in
         match rd_jentries n rest with
         | None => Err EOther
@@ -214,6 +217,7 @@ with decode_jsonb (fuel : nat) (bs : list N) : res (value * list N) :=
             Ok (VArr vs, rest'')
         end
       else if ty =? OBJECT_CONTAINER_TAG then
+        if lenN rest <? 8 * hdr_len hdr then Err EOther else
         let n := N.to_nat (hdr_len hdr) in
         match rd_jentries (2 * n) rest with
         | None => Err EOther
